@@ -239,6 +239,15 @@ func (e *Engine) shapedParam(st *State, p *ssa.Parameter, shape string) Value {
 	return v
 }
 
+func variantDesc(v Variant) string {
+	var ks []string
+	for k, sh := range v.Sets {
+		ks = append(ks, k+"="+sh)
+	}
+	sort.Strings(ks)
+	return strings.Join(ks, " ")
+}
+
 func (e *Engine) verifyFunction(ct *Contract, prop string, tier string) *fnResult {
 	t0 := time.Now()
 	res := &fnResult{Fn: ct.Fn, ByKind: map[string]int{}}
@@ -295,6 +304,13 @@ func (e *Engine) verifyFunction(ct *Contract, prop string, tier string) *fnResul
 	e.reachCount = nil
 	e.unmodelled = map[string]int{}
 	for _, variant := range variants {
+		e.entryShapes = map[string]string{}
+		e.unrollAll = variant.Sets["loops"] == "unroll"
+		for k, v := range variant.Sets {
+			if strings.HasPrefix(k, "entry:") {
+				e.entryShapes[k[6:]] = v
+			}
+		}
 		for _, shape := range e.paramShapes(fn, ct) {
 			st := e.initialState()
 			args := make([]Value, len(fn.Params))
@@ -445,6 +461,9 @@ func (e *Engine) verifyFunction(ct *Contract, prop string, tier string) *fnResul
 					if !want(cl) {
 						continue
 					}
+					if cl.Only != "" && cl.Only != variant.Name {
+						continue
+					}
 					applies := (cl.On == "" && ex.kind == "return") || (cl.On == "panic" && ex.kind == "panic") ||
 						(cl.On == "any" && (ex.kind == "return" || ex.kind == "panic"))
 					if !applies {
@@ -454,6 +473,9 @@ func (e *Engine) verifyFunction(ct *Contract, prop string, tier string) *fnResul
 					g := env.term(cl.Node)
 					env.pol = 0
 					o := getObl(cl.Name, "ensures", cl.Src, cl.Props, cl.Line)
+					if cl.Only != "" {
+						o.Bounded = "input shape " + cl.Only + " (" + variantDesc(variant) + ")"
+					}
 					if env.err != nil {
 						o.Status, o.Detail = "broken", env.err.Error()
 						env.err = nil
@@ -692,7 +714,9 @@ func (e *Engine) verifyFunction(ct *Contract, prop string, tier string) *fnResul
 	}
 	for _, id := range oblOrder {
 		o := obls[id]
-		o.Bounded = ct.Flags["bounded"]
+		if ct.Flags["bounded"] != "" {
+			o.Bounded = ct.Flags["bounded"]
+		}
 		if o.Kind == "mustfail" {
 			if o.Detail == "refuted" {
 				o.Status = "discharged"
